@@ -28,6 +28,9 @@ KeyLeaves == {HolePart(1), BlobPart(1, 0, 4), BlobPart(1, 1, 2), BlobPart(1, 2, 
               \cup (IF GWide THEN {HolePart(2), BlobPart(1, 0, 2), BlobPart(2, 0, 3), BlobPart(2, 2, 1)} ELSE {})
 Around == {<<>>, <<BlobPart(2, 1, 1)>>} \cup (IF GWide THEN {<<HolePart(1)>>, <<BlobPart(2, 0, 3)>>} ELSE {})
 
+Deep3 == {<<BlobPart(1, 0, 4)>>, <<BlobPart(1, 1, 2)>>, <<BlobPart(1, 1, 2), BlobPart(2, 0, 2)>>,
+          <<HolePart(1), BlobPart(1, 0, 4)>>, <<BlobPart(2, 0, 2), HolePart(1)>>}
+          \cup (IF GWide THEN SeqsUpTo({BlobPart(1, 0, 4), BlobPart(1, 1, 2), BlobPart(2, 0, 2), HolePart(1)}, 2) ELSE {})
 With(F, id, kind, ps) == (id :> Node(kind, ps)) @@ F
 WinParts(F, id) == {BytesPart(id, w[1], w[2]) : w \in Wins(SizeOf(F, id))}
 
@@ -42,11 +45,12 @@ GTrees ==
          UNION {LET F3 == With(GBase, 103, "bytes", p3) IN
                 UNION {LET F2 == With(F3, 102, "bytes", p2) IN
                        {With(F2, Root, "file", pre \o <<w>>) : pre \in Around, w \in WinParts(F2, 102)}
-                       \cup {With(F2, Root, "file", <<w, v>>) : w \in WinParts(F2, 102), v \in WinParts(F3, 103)}
+                       \cup {With(F2, Root, "file", <<w, v>>) : w \in WinParts(F2, 102),
+                                 v \in {x \in WinParts(F3, 103) : x.off = 1 \/ (x.off = 0 /\ x.size = 1)}}
                        : p2 \in {<<w3>> : w3 \in WinParts(F3, 103)}
-                            \cup {<<w3, y>> : w3 \in WinParts(F3, 103), y \in {BlobPart(2, 0, 2), HolePart(1)}}
-                            \cup {<<y, w3>> : w3 \in WinParts(F3, 103), y \in {BlobPart(1, 1, 2)}}}
-                : p3 \in SeqsUpTo({BlobPart(1, 0, 4), BlobPart(1, 1, 2), BlobPart(2, 0, 2), HolePart(1)}, 2)}
+                            \cup {<<w3, BlobPart(2, 0, 2)>> : w3 \in WinParts(F3, 103)}
+                            \cup {<<BlobPart(1, 1, 2), w3>> : w3 \in WinParts(F3, 103)}}
+                : p3 \in Deep3}
     [] OTHER -> {GBase}
 
 (* ---- case matrices ---- *)
